@@ -56,6 +56,31 @@ def handle (op : String) (args : List String) : Option String :=
     match Hash.parseFromB58 s with
     | some h => some s!"ok t={h.type} d={hexOrDash h.digest}"
     | none => some "err"
+  | "hashB58RoundTrip" => do
+    let t ← kvInt args "t"
+    let d ← kvBytes args "d"
+    some (if Hash.parseFromB58 (Hash.mk t d).marshalString = some ⟨t, d⟩ then "ok 1" else "ok 0")
+  | "hashUnmarshalInto" => do
+    let rt ← kvInt args "rt"
+    let rd ← kvBytes args "rd"
+    let b ← kvBytes args "b"
+    match Hash.unmarshalInto ⟨rt, rd⟩ b with
+    | some h => some s!"ok t={h.type} d={hexOrDash h.digest}"
+    | none => some "err"
+  | "hashParseB58Into" => do
+    let rt ← kvInt args "rt"
+    let rd ← kvBytes args "rd"
+    let s ← kvBytes args "s"
+    match Hash.parseFromB58Into ⟨rt, rd⟩ s with
+    | some h => some s!"ok t={h.type} d={hexOrDash h.digest}"
+    | none => some "err"
+  | "hashParseB58IntoPreFix" => do
+    let rt ← kvInt args "rt"
+    let rd ← kvBytes args "rd"
+    let s ← kvBytes args "s"
+    match Hash.parseFromB58IntoPreFix ⟨rt, rd⟩ s with
+    | some h => some s!"ok t={h.type} d={hexOrDash h.digest}"
+    | none => some "err"
   | "hashVerify" => do
     let t ← kvInt args "t"
     let d ← kvBytes args "d"
